@@ -66,12 +66,30 @@ def addressed {V : Type} (o : Obj) (c : Call V) : Option (Iface × Method) :=
 def attr (o : Obj) (name : Str) : Option Func :=
   o.classes.findSome? fun c => (c.attrs.find? fun a => a.1 = name).map (·.2)
 
+/-- Interface names of the decorated functions of a class body, in order (with repetitions). -/
+def decoIfaces (attrs : List (Str × Func)) : List Str := attrs.filterMap fun a => a.2.deco.map (·.1)
+
+/-- The last function of a class body decorated for `(i, m)`: its attribute name. -/
+def lastDecorated (attrs : List (Str × Func)) (i m : Str) : Option Str :=
+  (attrs.reverse.find? fun a => a.2.deco = some (i, m)).map (·.1)
+
+/-- For an interface WITHOUT a name: the decorated functions of the class body are searched whatever
+interface they name - the interfaces in the order the class body first mentions them, the first of
+them that has a function decorated for `member` decides (its last such function). -/
+def decoratedAnyIn (attrs : List (Str × Func)) (member : Str) : Option Str :=
+  (decoIfaces attrs).findSome? fun i => lastDecorated attrs i member
+
+/-- The attribute name under which class `c` provides a function decorated for `(iname, member)`:
+the last such function of the class body; `decoratedAnyIn` when the interface name is EMPTY (an
+interface declared as `DBusInterface('')`: the code's `if interfaceName:` is false). -/
+def decoratedName (c : Class) (iname member : Str) : Option Str :=
+  if iname ≠ [] then lastDecorated c.attrs iname member else decoratedAnyIn c.attrs member
+
 /-- The decorator table of the class chain: the first class that has a function decorated for
 `(iname, member)` decides; within a class the last such function; the function is then taken by
 its name from the instance (so an override in a more derived class wins). -/
 def decorated (o : Obj) (iname member : Str) : Option Func :=
-  match o.classes.findSome? fun c =>
-      (c.attrs.reverse.find? fun a => a.2.deco = some (iname, member)).map (·.1) with
+  match o.classes.findSome? fun c => decoratedName c iname member with
   | some name => attr o name
   | none => none
 
@@ -225,7 +243,8 @@ def replyBody {V : Type} (ofSeq : List V → V) (nret : Nat) : Ret V → List V
   | .single v => [v]
   | .seq vs => if nret = 1 then [ofSeq vs] else vs
 
-/-- Well-formed declarations: every declared interface has a (non-empty) name. -/
+/-- Well-formed declarations: every declared interface has a (non-empty) name.  (Since the
+extension of 2026-09-30 no theorem needs this any more: `bound` covers the empty name.) -/
 def NamedIfaces (ex : Exports) : Prop :=
   ∀ e ∈ ex, ∀ i ∈ declared e.2, i.name ≠ []
 
